@@ -4,9 +4,11 @@
 package vtime
 
 import (
+	"context"
 	"time"
 
 	"verif/vrt"
+	"verif/vrt/vsync"
 )
 
 func Now() time.Time {
@@ -69,4 +71,82 @@ func (t *Timer) Reset(d time.Duration) bool {
 		return t.real.Reset(d)
 	}
 	return vrt.ResetTimer(t.id, int64(d))
+}
+
+// ---- contexts with a deadline, created by the library itself -----------------------------------
+//
+// context.WithTimeout / WithDeadline in instrumented library code arm a *modelled* timer: the deadline
+// passes when the harness lets virtual time pass, not when the wall clock says so. (The unchanged
+// library creates no such contexts; a change that gives a call a time limit of its own must not hide
+// from the exploration behind a real-time timer that never fires within an execution.)
+
+type deadlineCtx struct {
+	context.Context
+	done     chan struct{}
+	stop     chan struct{}
+	deadline time.Time
+	mu       vsync.Mutex
+	err      error
+	finished bool
+}
+
+func (c *deadlineCtx) Done() <-chan struct{}       { return c.done }
+func (c *deadlineCtx) Deadline() (time.Time, bool) { return c.deadline, true }
+func (c *deadlineCtx) Err() error {
+	c.mu.Lock()
+	defer c.mu.Unlock()
+	return c.err
+}
+
+func (c *deadlineCtx) finish(err error) {
+	c.mu.Lock()
+	first := !c.finished
+	if first {
+		c.finished, c.err = true, err
+	}
+	c.mu.Unlock()
+	if first {
+		vrt.Close(c.done)
+	}
+}
+
+func WithTimeout(parent context.Context, d time.Duration) (context.Context, context.CancelFunc) {
+	if !vrt.Active() {
+		return context.WithTimeout(parent, d)
+	}
+	c := &deadlineCtx{Context: parent, done: make(chan struct{}), stop: make(chan struct{}), deadline: Now().Add(d)}
+	tch := make(chan time.Time, 1)
+	id := vrt.NewTimerChan(tch, int64(d), func(ns int64) any { return time.Unix(0, ns) })
+	vrt.GoNamed(vrt.SystemPrefix+"context deadline", func() {
+		cases := []vrt.CaseHandle{vrt.CaseRecv(tch), vrt.CaseRecv(c.stop)}
+		if parent.Done() != nil {
+			cases = append(cases, vrt.CaseRecv(parent.Done()))
+		}
+		switch vrt.Select(false, cases...) {
+		case 0:
+			c.finish(context.DeadlineExceeded)
+		case 2:
+			c.finish(parent.Err())
+		}
+	})
+	stopped := false
+	var smu vsync.Mutex
+	return c, func() {
+		c.finish(context.Canceled)
+		smu.Lock()
+		first := !stopped
+		stopped = true
+		smu.Unlock()
+		if first {
+			vrt.StopTimer(id)
+			vrt.Close(c.stop)
+		}
+	}
+}
+
+func WithDeadline(parent context.Context, t time.Time) (context.Context, context.CancelFunc) {
+	if !vrt.Active() {
+		return context.WithDeadline(parent, t)
+	}
+	return WithTimeout(parent, Until(t))
 }
